@@ -8,7 +8,7 @@ LEVEL = 'model_checking'
 BUDGET_S = {'quick': 170, 'thorough': 1200}
 BOUNDS = {
     'quick': 'single values depth <= 2 width <= 2; pairs depth <= 1 width <= 2; triples of leaves and width-1 containers; '
-             'leaves None / bool / unbounded int / integer-valued float |i| <= 2**53 / specials -0.0 0.5 inf 1e300 2.0**63 / '
+             'leaves None / bool / unbounded int / integer-valued float |i| <= 2**53 / specials -0.0 0.5 inf 1e300 2.0**63 / concrete integers 2**53+1, 2**63+1, -2**63-1, 10**23 against the floats they round to / '
              'string atoms (free, rendering of an int, literals "" "a" "true" "null" non-BMP); dict keys str/int/bool/None/float '
              '(symbolic) and, in two families, concrete keys from {0, 1, -1, 2**53+1, True, False, 0.0, 1.0, -0.0, 0.5, inf, '
              '"true", "1", "1.0", "null"}',
@@ -34,6 +34,7 @@ FULL = {}
 DICT2 = {'leaf_kinds': ['int', 'none'], 'key_kinds': ['str', 'int', 'bool'], 'specials': [], 'lits': ['true']}
 CKEYS = {'leaf_kinds': ['int', 'none'], 'key_kinds': ['concrete'], 'specials': [], 'lits': ['true']}
 BKEYS = {'leaf_kinds': ['int', 'none'], 'key_kinds': ['concrete', 'badkey'], 'specials': [], 'lits': ['true']}
+BIGNUM = {'leaf_kinds': ['bigint', 'special', 'int', 'float'], 'key_kinds': ['str'], 'specials': J.BIG_FLOATS, 'lits': ['true']}
 LIST2 = {'leaf_kinds': ['int', 'bool', 'float', 'str'], 'key_kinds': ['str'], 'specials': [], 'lits': ['true']}
 
 
@@ -51,6 +52,10 @@ def families(tier):
             # dict keys as plain Python values from the colliding classes (True/1/1.0, False/0/-0.0, keyword strings)
             {'name': 'single', 'params': {'depth': 1, 'width': 2, 'shape': CKEYS, 'containers': ['dict']}, 'weight': 1},
             {'name': 'pair', 'params': {'depth': 1, 'width': 1, 'shape': CKEYS, 'containers': ['dict']}, 'weight': 1},
+            # integers beyond 2**53 against the floats they round to (and against unbounded symbolic integers)
+            {'name': 'pair', 'params': {'depth': 0, 'width': 0, 'shape': BIGNUM}, 'weight': 1},
+            {'name': 'triple', 'params': {'depth': 0, 'width': 0, 'shape': BIGNUM}, 'weight': 1},
+            {'name': 'single', 'params': {'depth': 1, 'width': 1, 'shape': BIGNUM, 'containers': ['list']}, 'weight': 1},
             # keys that json refuses (tuples, bytes, frozenset): sanitize must raise TypeError
             {'name': 'single', 'params': {'depth': 2, 'width': 1, 'bad': True, 'shape': BKEYS, 'containers': ['dict', 'list']}, 'weight': 1},
         ]
